@@ -14,7 +14,7 @@ CONSTANTS Formats,    \* subset of {"bool","int","float","string"}  (uint8..uint
           PermSets,   \* set of subsets of {"pr","pw","ev"}
           Bounds,     \* set of <<min, max>> on the abstract scale: <<0, 1>> = declared bounds, <<-2, 3>> = none declared
           Weak
-VARIABLES Format, Perms, Min, Max,      \* the cell's configuration, chosen in Init and never changed
+VARIABLES Format, Perms, Min, Max,      \* the cell's configuration, chosen in Init; the range can be declared anew (Rebound)
           val, cbRemote, cbLocal, subscribed, out, act
 vars == <<Format, Perms, Min, Max, val, cbRemote, cbLocal, subscribed, out, act>>
 cfg == <<Format, Perms, Min, Max>>
@@ -70,6 +70,15 @@ GetterRead(c, remote) ==
             /\ cbLocal' = IF ~remote /\ cbLocal < 2 THEN cbLocal + 1 ELSE cbLocal
             /\ out' = "changed" /\ UNCHANGED subscribed
 
+\* The application declares another range (SetMinValue / SetMaxValue) while the cell holds a value: the value is limited
+\* by the new range at once (guard value_limited_when_range_changes), otherwise it stays outside until the next update.
+Rebound(b) ==
+  /\ act' = [a |-> "Rebound", cls |-> (IF b[1] = 0 THEN "narrow" ELSE "wide"), remote |-> FALSE]
+  /\ Min' = b[1] /\ Max' = b[2] /\ UNCHANGED <<Format, Perms>>
+  /\ LET lim(m) == IF m > b[2] THEN b[2] ELSE IF m < b[1] THEN b[1] ELSE m IN
+     val' = IF val.t \in {"int", "float"} /\ Guard("value_limited_when_range_changes") THEN [val EXCEPT !.m = lim(@)] ELSE val
+  /\ out' = "rebound" /\ UNCHANGED <<cbRemote, cbLocal, subscribed>>
+
 Subscribe == /\ act' = [a |-> "Subscribe", cls |-> "none", remote |-> TRUE] /\ UNCHANGED cfg
              /\ subscribed' = ("ev" \in Perms \/ ~Guard("subscribe_needs_ev"))
              /\ out' = IF subscribed' THEN "sub_ok" ELSE "sub_refused"
@@ -80,6 +89,7 @@ TypedGet == /\ act' = [a |-> "TypedGet", cls |-> "none", remote |-> FALSE] /\ UN
 
 Next == \/ \E c \in Classes, r \in BOOLEAN : Update(c, r) \/ GetterRead(c, r)
         \/ Subscribe \/ TypedGet
+        \/ \E b \in Bounds : Rebound(b)
 Spec == Init /\ [][Next]_vars
 
 \* ---- C12
